@@ -46,9 +46,8 @@ RULE = ("Hypothesis draws (a) 'synth': a synthetic approach+retract curve (5 mod
         "non-trivial = (a) baseline of >= 20 samples, (b)-(d) every case; distinct = distinct case record")
 ASSUMPTIONS = [
     "'valid integer index' = a Python int or numpy integer (not bool, not float: the callers use it in force[:idp] and "
-    "tip[cpid]) with 0 <= idx < len(force); additionally idx < argmax(force), because every estimator is handed only "
-    "the samples before the force maximum (compute_preproc_clip_approach) and an index beyond them is not an index "
-    "into the estimator's array (reported as a separate sub-check)",
+    "tip[cpid]) with 0 <= idx < len(force); an index at or beyond the force maximum (outside the clipped approach the "
+    "estimator works on, but inside the array that was passed in) is only counted (class index_at_or_past_force_maximum)",
     "true contact index of a synthetic curve = first approach sample with tip position below the contact point; "
     "accuracy bound: |idx - true| <= phi x (number of approach samples) with phi = %r, calibrated as ~1.5-2x the "
     "largest error over >= 20000 clean curves (noise in {0, 1e-4, 1e-3} of the force range, no tilt) on the repaired "
@@ -121,7 +120,7 @@ _POOL = [0.0, 1.0, -1.0, 2.0, 0.5, 3.0, -2.5, 10.0, 1e-3]
 
 @st.composite
 def st_degenerate(draw):
-    shape = draw(st.sampled_from(["explicit", "explicit", "constant", "decreasing", "no_baseline"]))
+    shape = draw(st.sampled_from(["explicit", "explicit", "constant", "plateau", "decreasing", "no_baseline"]))
     unit = draw(st.sampled_from([1e-9, 1e-9, 1.0, 1e-12]))
     if shape == "explicit":
         vals = draw(st.lists(st.one_of(st.sampled_from(_POOL), st.floats(-10, 10)), min_size=0, max_size=12))
@@ -129,6 +128,8 @@ def st_degenerate(draw):
     n = draw(st.one_of(st.integers(1, 14), st.integers(1, 120), st.integers(1, 400)))
     case = {"kind": "degenerate", "shape": shape, "unit": unit, "n": n,
             "offset": draw(st.sampled_from([0.0, 0.0, 1.0, -3.0, 100.0]))}
+    if shape == "plateau":
+        case["n_top"] = draw(st.integers(1, 3))
     if shape == "decreasing":
         case["power"] = draw(st.sampled_from([1.0, 0.5, 2.0, 1.5]))
     if shape == "no_baseline":
@@ -147,6 +148,8 @@ def degenerate_array(case):
     i = np.arange(n, dtype=float)
     if case["shape"] == "constant":
         f = np.zeros(n)
+    elif case["shape"] == "plateau":      # constant with the maximum at the very end: constant after clipping
+        f = np.concatenate([np.zeros(n), np.ones(int(case["n_top"]))])
     elif case["shape"] == "decreasing":
         f = -((i + 1) / n) ** case["power"]
     elif case["shape"] == "no_baseline":
@@ -201,10 +204,9 @@ def check_wellformed(case, ctx, force, make_idnt, true_idx=None, classes=()):
         if not ctx.check(0 <= idx < n, "index-out-of-range", desc,
                          f"index {int(idx)} for a force array of {n} samples (force maximum at {idmax})"):
             continue
-        if not ctx.check(idx < idmax, "index-past-force-maximum", desc,
-                         f"index {int(idx)} >= {idmax} = position of the force maximum ({n} samples): not an index "
-                         "into the clipped approach the estimator works on"):
-            continue
+        if idx >= idmax:
+            # not asserted (the statement only demands an index into the array that was passed in): counted
+            ctx.event("index_at_or_past_force_maximum:" + m)
         if "details" in ops:
             ok, res = call(ctx, "raises", dict(desc, call="ret_details"), force, m, ret_details=True)
             if ok:
